@@ -1,13 +1,108 @@
 import ChythonModel.Model.C16Patcher
 import ChythonModel.Spec.C16Deleted
+import ChythonModel.Proofs.C16Deleted
 /-!
 # C16 — template application edits exactly what the template names
+
+Theorems about the executable model `Model/C16Patcher.lean` (the functions `Drivers/C16.lean` runs).
+
+`_get_deleted` part. `getDeleted g tpl mapping` is the model of `BaseReactor._get_deleted`; `tpl` is the template's
+`_to_delete` **in any iteration order**, the neighbour lists of `g` are in any (dict) order.
 -/
 namespace ChythonModel.Props.C16
-open ChythonModel.Model ChythonModel.Model.C16 ChythonModel.Spec.C16
+open ChythonModel.Model ChythonModel.Model.C16 ChythonModel.Spec.C16 ChythonModel.Proofs.C16
+
+/-- **get_deleted_exact** (full statement, proved). For every undirected graph, every match and every iteration order of
+the deleted set and of the neighbour dicts: the atoms `_get_deleted` returns are exactly the matched atoms absent from
+the replacement (`D`, the image of `_to_delete` under the match) together with every fragment of `g − D` that was bonded
+to an atom of `D` and contains no remaining matched atom (`DeletedSpec`, written from the property statement). -/
+theorem get_deleted_exact (g : List (Nat × List Nat)) (hsym : Symm g) (tpl : List Nat) (mapping : List (Nat × Nat))
+    (res : List Nat) (h : getDeleted g tpl mapping = .ok res) :
+    ∃ D, mapAll mapping tpl = .ok D ∧ (∀ v, v ∈ D ↔ ∃ x ∈ tpl, mapping.lookup x = some v) ∧
+      ∀ v, v ∈ res ↔ DeletedSpec g D (remainOf mapping D) v := by
+  obtain ⟨D, hD, hres⟩ := getDeleted_exact hsym tpl mapping res h
+  exact ⟨D, hD, mapAll_mem mapping tpl D hD, hres⟩
+
+/-- soundness half, usable on its own: an atom that is not one of `D` is only removed when its whole fragment is
+detached — no atom still connected to a remaining matched atom is ever deleted (the defect of DESIGN §7 #15). -/
+theorem get_deleted_never_removes_attached (g : List (Nat × List Nat)) (hsym : Symm g) (tpl : List Nat)
+    (mapping : List (Nat × Nat)) (res D : List Nat) (h : getDeleted g tpl mapping = .ok res)
+    (hD : mapAll mapping tpl = .ok D) (v : Nat) (hv : v ∈ res) (hvD : v ∉ D) :
+    ¬ Attached g D (remainOf mapping D) v := by
+  obtain ⟨D', hD', hres⟩ := getDeleted_exact hsym tpl mapping res h
+  rw [hD] at hD'
+  cases hD'
+  rcases (hres v).1 hv with h1 | ⟨x, n, _, _, _, hnv, hna⟩
+  · exact absurd h1 hvD
+  · intro hatt
+    exact hna (attached_of_reach hsym (Reach.symm hsym hnv) hatt)
+
+/-- completeness half: a fragment that lost its only link(s) to the matched part is removed entirely -/
+theorem get_deleted_removes_detached (g : List (Nat × List Nat)) (hsym : Symm g) (tpl : List Nat)
+    (mapping : List (Nat × Nat)) (res D : List Nat) (h : getDeleted g tpl mapping = .ok res)
+    (hD : mapAll mapping tpl = .ok D) (x n v : Nat) (hx : x ∈ D) (hxn : Edge g x n) (hn : n ∉ D)
+    (hnv : Reach g D n v) (hdet : ¬ Attached g D (remainOf mapping D) n) : v ∈ res := by
+  obtain ⟨D', hD', hres⟩ := getDeleted_exact hsym tpl mapping res h
+  rw [hD] at hD'
+  cases hD'
+  exact (hres v).2 (Or.inr ⟨x, n, hx, hxn, hn, hnv, hdet⟩)
+
+/-- **order independence**: two runs that differ only in the iteration order of the `_to_delete` set, in the insertion
+order of atoms / bonds of the structure (same edge relation) and in the order of the match dict return the same set. -/
+theorem get_deleted_order_independent (g1 g2 : List (Nat × List Nat)) (hs1 : Symm g1) (hs2 : Symm g2)
+    (hE : ∀ a b, Edge g1 a b ↔ Edge g2 a b) (tpl1 tpl2 : List Nat) (ht : ∀ x, x ∈ tpl1 ↔ x ∈ tpl2)
+    (mp1 mp2 : List (Nat × Nat)) (hm : ∀ k, mp1.lookup k = mp2.lookup k)
+    (hv : ∀ v, v ∈ mp1.map (·.2) ↔ v ∈ mp2.map (·.2))
+    (r1 r2 : List Nat) (h1 : getDeleted g1 tpl1 mp1 = .ok r1) (h2 : getDeleted g2 tpl2 mp2 = .ok r2) :
+    ∀ v, v ∈ r1 ↔ v ∈ r2 := by
+  obtain ⟨D1, hD1, hr1⟩ := getDeleted_exact hs1 tpl1 mp1 r1 h1
+  obtain ⟨D2, hD2, hr2⟩ := getDeleted_exact hs2 tpl2 mp2 r2 h2
+  have hD : ∀ v, v ∈ D1 ↔ v ∈ D2 := by
+    intro v
+    rw [mapAll_mem mp1 tpl1 D1 hD1, mapAll_mem mp2 tpl2 D2 hD2]
+    constructor
+    · rintro ⟨x, hx, hxv⟩; exact ⟨x, (ht x).1 hx, by rw [← hm]; exact hxv⟩
+    · rintro ⟨x, hx, hxv⟩; exact ⟨x, (ht x).2 hx, by rw [hm]; exact hxv⟩
+  have hR : ∀ v, v ∈ remainOf mp1 D1 ↔ v ∈ remainOf mp2 D2 := by
+    intro v
+    simp only [remainOf, List.mem_filter, Bool.not_eq_eq_eq_not, Bool.not_true, List.contains_eq_mem,
+      decide_eq_false_iff_not]
+    rw [hv v, hD v]
+  intro v
+  rw [hr1 v, hr2 v]
+  exact ⟨DeletedSpec.congr hE hD hR v,
+         DeletedSpec.congr (fun a b => (hE a b).symm) (fun v => (hD v).symm) (fun v => (hR v).symm) v⟩
+
+/-- **totality** (error branch): on a closed graph (every neighbour is a key) with a match that covers the template's
+deleted atoms and lands on atoms of the graph, `_get_deleted` never raises. -/
+theorem get_deleted_total (g : List (Nat × List Nat)) (hclosed : Closed g) (tpl : List Nat) (mapping : List (Nat × Nat))
+    (hm : ∀ x ∈ tpl, ∃ v, mapping.lookup x = some v ∧ ∃ nb, g.lookup v = some nb) :
+    ∃ res, getDeleted g tpl mapping = .ok res :=
+  getDeleted_total hclosed tpl mapping hm
+
+/-- the error branch is real: a template atom missing from the match raises `KeyError` -/
+theorem get_deleted_raises_on_incomplete_match :
+    getDeleted [(1, [2]), (2, [1])] [101, 102] [(101, 1)] = .error (.keyError 102) := by
+  simp [getDeleted, mapAll, List.lookup]
+
+/-- the executable graph checks the driver applies imply the hypotheses of the theorems above -/
+theorem graph_checks_sound (g : List (Nat × List Nat)) (h : symmB g = true ∧ closedB g = true) : Symm g ∧ Closed g :=
+  ⟨symmB_sound h.1, closedB_sound h.2⟩
 
 /-- without deleted template atoms nothing is removed, whatever the graph and the match -/
 theorem get_deleted_empty (g : List (Nat × List Nat)) (mapping : List (Nat × Nat)) : getDeleted g [] mapping = .ok [] := by
   simp [getDeleted]
+
+/-! Hypotheses are satisfiable by non-trivial instances: the molecule of DESIGN §7 #15
+(C1–N2, N2–C3, N2–C4, C3–C4, C3–C1, bonds inserted in that order; template `[C;D2:1][N;D3:2] → [C:1]`, match 1↦1, 2↦2):
+the graph is undirected and closed, the model returns `{2}` — atom 4 (still attached through C3–C1) is kept —
+and a detached fragment (atoms 3, 4 of the chain 1–2–3–4 after deleting 2 with only 1 remaining) is removed. -/
+def witnessGraph : List (Nat × List Nat) := [(1, [2, 3]), (2, [1, 3, 4]), (3, [2, 4, 1]), (4, [2, 3])]
+
+example : Symm witnessGraph ∧ Closed witnessGraph := graph_checks_sound _ (by decide)
+example : getDeleted witnessGraph [102] [(101, 1), (102, 2)] = .ok [2] := by
+  simp [getDeleted, mapAll, outerLoop, visitNbrs, visitNbr, dfs, List.lookup, remainOf, witnessGraph]
+example : getDeleted [(1, [2]), (2, [1, 3]), (3, [2, 4]), (4, [3])] [102] [(101, 1), (102, 2)] = .ok [2, 4, 3] := by
+  simp [getDeleted, mapAll, outerLoop, visitNbrs, visitNbr, dfs, List.lookup, remainOf]
 
 end ChythonModel.Props.C16
